@@ -96,6 +96,10 @@ func boundary(w *kit.Out) {
 		"mint a0 "+G+"=10,"+R+"=10", "mint a1 "+G+"=10", "restrict "+G, "send a0 a1 "+G+"=1", "send a0 a1 "+R+"=1", "send a0 a1 "+G+"=1,"+R+"=1",
 		"sendu a0 a1 "+G+"=1", "multi a0@"+G+"=1 a1@"+G+"=1", "whitelist a0", "send a0 a1 "+G+"=1", "multi a0@"+G+"=1;a1@"+G+"=1 a2@"+G+"=2",
 		"whitelist a5", "send a0 a1 "+G+"=0", "restrict -", "send a1 a0 "+G+"=1", "restrict ab", "restrict "+G+","+R, "send a1 a0 "+R+"=1", "vest a0 -", "whitelist a0", "send a0 a1 "+G+"=1")
+	c("fees",
+		"fee a0 a5 "+G+"=1", "mint a0 "+G+"=10,"+R+"=3", "fee a0 a5 "+G+"=1", "fee a0 a5 "+G+"=10", "fee a0 a5 "+R+"=3", "fee a0 a5 "+R+"=1,"+G+"=9",
+		"fee a0 a5 "+G+"=0", "fee a0 a5 -", "fee a0 a5 ab=1", "fee a0 a5 "+P+"=1", "vest a0 "+G+"=5", "fee a0 a5 "+G+"=8", "restrict "+G, "fee a0 a5 "+G+"=1",
+		"fee a5 a5 "+G+"=2", "fee a1 a5 "+G+"=1", "fee.raw a0 a5 "+G+"=1")
 	c("genesis",
 		"setcoins a0 "+G+"=5,"+R+"=6", "setcoins a1 "+P+"=1", "recompute", "send a0 a1 "+R+"=6", "setcoins a0 "+P+"=2", "setcoins a1 -", "recompute",
 		"setcoins a2 ab=1", "setcoins a2 "+R+"=1,"+G+"=1", fmt.Sprintf("setcoins a3 %s=%d", R, int64(maxI)), "recompute", "setcoins a3 -", "recompute", "burn a2 "+R+"=1")
@@ -147,8 +151,8 @@ func (g genCfg) amt(r *kit.Rand, have int64) int64 {
 	switch {
 	case r.Chance(g.edgePct):
 		return kit.Pick(r, edgeAmts)
-	case have > 0 && r.Chance(70):
-		switch r.Intn(4) {
+	case have > 0 && r.Chance(85):
+		switch r.Intn(8) {
 		case 0:
 			return have
 		case 1:
@@ -160,16 +164,28 @@ func (g genCfg) amt(r *kit.Rand, have int64) int64 {
 	return kit.Pick(r, smallAmts)
 }
 
-// coinSet draws 1–3 coins; mostly sorted and unique.
+// coinSet draws 1–3 coins; mostly sorted and unique.  With from >= 0 the denoms
+// are mostly ones that address holds (per the generator's own ledger).
 func (g genCfg) coinSet(r *kit.Rand, l *ledger, from int, messy bool) ([]string, []int64) {
 	n := 1
 	if r.Chance(30) {
 		n = 2 + r.Intn(2)
 	}
+	var held []string
+	if from >= 0 {
+		for _, d := range append(append([]string{}, validDenoms...), longDenom) {
+			if l.bal[from][d] > 0 {
+				held = append(held, d)
+			}
+		}
+	}
 	seen := map[string]bool{}
 	var ds []string
 	for i := 0; i < n; i++ {
 		d := g.denom(r)
+		if len(held) > 0 && !r.Chance(g.badPct) && r.Chance(88) {
+			d = kit.Pick(r, held)
+		}
 		if seen[d] && !messy {
 			continue
 		}
@@ -277,8 +293,11 @@ func history(w *kit.Out, r *kit.Rand, g genCfg, nops int, allowKeeper bool) {
 			f, t := pickFrom(), r.Intn(nAddr)
 			ds, as := g.coinSet(r, l, f, false)
 			op := "send"
-			if r.Chance(30) {
+			switch r.Intn(10) {
+			case 0, 1, 2:
 				op = "sendu"
+			case 3, 4:
+				op = "fee"
 			}
 			w.Op("%s%s a%d a%d %s", op, raw, f, t, coinsTok(ds, as))
 			if okCoins(ds, as) && l.can(f, ds, as) {
@@ -297,12 +316,18 @@ func history(w *kit.Out, r *kit.Rand, g genCfg, nops int, allowKeeper bool) {
 				as []int64
 			}
 			var mins []mv
+			avail := newLedger()
+			for i := range l.bal {
+				for d, v := range l.bal[i] {
+					avail.bal[i][d] = v
+				}
+			}
 			for i := 0; i < nin; i++ {
 				f := pickFrom()
-				ds, as := g.coinSet(r, l, f, false)
-				for j := range as { // keep several inputs affordable
-					if as[j] > 1 && as[j] < maxI/4 && nin > 1 {
-						as[j] = 1 + as[j]/int64(nin)
+				ds, as := g.coinSet(r, avail, f, false)
+				for j := range ds { // later inputs of the same address see what is left
+					if as[j] > 0 && avail.bal[f][ds[j]] >= as[j] {
+						avail.bal[f][ds[j]] -= as[j]
 					}
 				}
 				mins = append(mins, mv{f, ds, as})
@@ -469,14 +494,14 @@ func history(w *kit.Out, r *kit.Rand, g genCfg, nops int, allowKeeper bool) {
 
 func malformed(w *kit.Out, r *kit.Rand, n int) {
 	g := genCfg{edgePct: 40, badPct: 35}
-	ops := []string{"send", "sendu", "multi", "mint", "burn", "add", "sub", "setcoins", "vest", "send.raw", "multi.raw"}
+	ops := []string{"send", "sendu", "fee", "multi", "mint", "burn", "add", "sub", "setcoins", "vest", "send.raw", "multi.raw"}
 	l := newLedger()
 	for i := 0; i < n; i++ {
 		op := kit.Pick(r, ops)
 		ds, as := g.coinSet(r, l, -1, true)
 		ct := coinsTok(ds, as)
 		switch strings.TrimSuffix(op, ".raw") {
-		case "send", "sendu":
+		case "send", "sendu", "fee":
 			w.Op("%s a%d a%d %s", op, r.Intn(nAddr), r.Intn(nAddr), ct)
 		case "multi":
 			ds2, as2 := g.coinSet(r, l, -1, true)
